@@ -41,7 +41,7 @@ type TEvent struct {
 
 // Fault makes the K-th (1-based) call of Op fail with Err.
 type Fault struct {
-	Op  string `json:"op"`  // write | writev | wr (a write of either kind) | flush | read
+	Op  string `json:"op"`  // write | writev | wr (a write of either kind) | flush | read | close (Close reports an error, the transport is closed all the same)
 	K   int    `json:"k"`   // 1-based call index of that op
 	Err string `json:"err"` // plain | timeout | neterr | eof
 	// Partial: the failing Write/Writev reports n = 1 together with the error (a write that failed after partial progress)
@@ -388,12 +388,18 @@ func (t *Transport) Close() error {
 	t.closed = true
 	t.wakeReaderLocked()
 	t.wakeStalledLocked()
+	var closeErr error
+	if err := t.fault("close"); err != nil {
+		// e.g. a TLS connection that could not send its close_notify, a final flush that failed: closed all the same
+		closeErr = err
+	}
+	defer func() { _ = closeErr }()
 	if t.OnClose != nil {
 		t.mu.Unlock()
 		t.OnClose()
 		t.mu.Lock()
 	}
-	return nil
+	return closeErr
 }
 
 func (t *Transport) readable() bool {
